@@ -543,6 +543,17 @@ func (r *Run) causeFor(upseid uint64, cause string) string {
 	if t, ok := r.Taints[upseid]; ok {
 		return "after:" + t
 	}
+	if upseid == 0 && len(r.Taints) > 0 {
+		// a discrepancy about an object shared between sessions, in a run in
+		// which some session met a known-finding trigger: attribute it to the
+		// (alphabetically first) trigger of the run
+		var ts []string
+		for _, t := range r.Taints {
+			ts = append(ts, t)
+		}
+		sort.Strings(ts)
+		return "after:" + ts[0]
+	}
 	return cause
 }
 
